@@ -92,30 +92,39 @@ theorem bind1_agree {β : Type} (ra ra' : Res Int) (f : Int → Res β)
 
 /-- under an assignment extending the memo, evaluation over the memo either stops at an unbound
     name or agrees with evaluation under the assignment -/
-theorem eval_agree (args : Args) (α : Key → Nat) (σ : Single) (h : ExtendsSingle α σ) :
-    ∀ e : Expr, e.eval args σ = .annErr ∨ e.eval args σ = e.evalT args α
+theorem evalCore_agree (args : Args) (α : Key → Nat) (σ : Single) (h : ExtendsSingle α σ) :
+    ∀ e : Expr, e.evalCore args σ = .annErr ∨ e.evalCore args σ = e.evalTCore args α
   | .lit n => Or.inr rfl
   | .var x => by
-    simp only [Expr.eval, Expr.evalT]
+    simp only [Expr.evalCore, Expr.evalTCore]
     cases hx : σ.lookup (.plain x) with
     | none => left; rfl
     | some n => right; rw [h _ _ hx]
   | .hole x => Or.inr rfl
   | .neg a => by
-    simp only [Expr.eval, Expr.evalT]
-    exact bind1_agree _ _ _ (eval_agree args α σ h a)
+    simp only [Expr.evalCore, Expr.evalTCore]
+    exact bind1_agree _ _ _ (evalCore_agree args α σ h a)
   | .add a b => by
-    simp only [Expr.eval, Expr.evalT]
-    exact bind2_agree _ _ _ _ _ (eval_agree args α σ h a) (eval_agree args α σ h b)
+    simp only [Expr.evalCore, Expr.evalTCore]
+    exact bind2_agree _ _ _ _ _ (evalCore_agree args α σ h a) (evalCore_agree args α σ h b)
   | .sub a b => by
-    simp only [Expr.eval, Expr.evalT]
-    exact bind2_agree _ _ _ _ _ (eval_agree args α σ h a) (eval_agree args α σ h b)
+    simp only [Expr.evalCore, Expr.evalTCore]
+    exact bind2_agree _ _ _ _ _ (evalCore_agree args α σ h a) (evalCore_agree args α σ h b)
   | .mul a b => by
-    simp only [Expr.eval, Expr.evalT]
-    exact bind2_agree _ _ _ _ _ (eval_agree args α σ h a) (eval_agree args α σ h b)
+    simp only [Expr.evalCore, Expr.evalTCore]
+    exact bind2_agree _ _ _ _ _ (evalCore_agree args α σ h a) (evalCore_agree args α σ h b)
   | .fdiv a b => by
-    simp only [Expr.eval, Expr.evalT]
-    exact bind2_agree _ _ _ _ _ (eval_agree args α σ h a) (eval_agree args α σ h b)
+    simp only [Expr.evalCore, Expr.evalTCore]
+    exact bind2_agree _ _ _ _ _ (evalCore_agree args α σ h a) (evalCore_agree args α σ h b)
+
+theorem eval_agree (args : Args) (α : Key → Nat) (σ : Single) (h : ExtendsSingle α σ) (e : Expr) :
+    e.eval args σ = .annErr ∨ e.eval args σ = e.evalT args α := by
+  unfold Expr.eval Expr.evalT
+  cases holesPass args e.holes with
+  | ok _ => exact evalCore_agree args α σ h e
+  | fail => right; rfl
+  | annErr => left; rfl
+  | exc x => right; rfl
 
 theorem eval_ok_agree (args : Args) (α : Key → Nat) (σ : Single) (h : ExtendsSingle α σ)
     (e : Expr) (v : Int) (hv : e.eval args σ = .ok v) : e.evalT args α = .ok v := by
